@@ -5,7 +5,7 @@ CONSTANTS
   Pres = {"", "1", "v6"}
   Posts = {"", "0"}
   Xfhs = {"absent", "mapped", "list", "unmapped", "empty"}
-  Hosts = {"mapped", "unmapped"}
+  Hosts = {"mapped", "unmapped", "empty", "absent"}
   Variant = "suffixtrust"
 INVARIANT TypeOK
 INVARIANT Conforms
